@@ -1,2 +1,3 @@
 import Proofs.Ring
 import Proofs.RingSpec
+import Proofs.PipeLemmas
